@@ -2,6 +2,7 @@ from __future__ import annotations
 
 import inspect
 import os
+import re
 import socket
 import sys
 from enum import Enum
@@ -64,13 +65,19 @@ def suppress_body(method: str, status_code: int) -> bool:
     return method == "HEAD" or 100 <= status_code < 200 or status_code in {204, 304}
 
 
+_INVALID_HEADER_BYTES = re.compile(rb"[\x00\r\n]")
+
+
 def build_and_validate_headers(headers: Iterable[Tuple[bytes, bytes]]) -> List[Tuple[bytes, bytes]]:
     # Validates that the header name and value are bytes
     validated_headers: List[Tuple[bytes, bytes]] = []
     for name, value in headers:
         if name[0] == b":"[0]:
             raise ValueError("Pseudo headers are not valid")
-        validated_headers.append((bytes(name).strip(), bytes(value).strip()))
+        name, value = bytes(name).strip(), bytes(value).strip()
+        if _INVALID_HEADER_BYTES.search(name) or _INVALID_HEADER_BYTES.search(value):
+            raise ValueError(f"Invalid character in header {name!r}")
+        validated_headers.append((name, value))
     return validated_headers
 
 
